@@ -185,3 +185,52 @@ func VH_C07_L1(kind, desc int) {
 	}
 	vCover("compared")
 }
+
+// Generated ORDER BY clauses: every list of m entries over a pool of select fields, each entry
+// without direction, asc or desc - repeats of a field included (a repeated field can never
+// break a tie, so the reference is simply lexicographic over the list as written).
+var vC07Sets = []struct {
+	fields string
+	names  []string
+	valpha string
+}{
+	{"key, value, int(value) as n, strlen(value) as l", []string{"key", "value", "n", "l"}, "019"},
+	{"key, value, is_int(value) as b, upper(value) as u, strlen(value) as l", []string{"key", "value", "b", "u", "l"}, "1aA"},
+	// fields defined through other fields
+	{"key as k, value as w, w + 'x' as m, strlen(w) + 1 as p", []string{"k", "w", "m", "p"}, "ab"},
+}
+
+func VH_C07_GEN(set, m, code, n, B int) {
+	s := vC07Sets[set]
+	order := ""
+	var keys []vOrderKey
+	for i := 0; i < m; i++ {
+		e := code % (3 * len(s.names))
+		code /= 3 * len(s.names)
+		f, d := e/3, e%3
+		if i > 0 {
+			order += ", "
+		}
+		order += s.names[f] + []string{"", " asc", " desc"}[d]
+		keys = append(keys, vOrderKey{f, d == 2})
+	}
+	st := vSymStore(n, 1, 1, 1, 2, "abc", s.valpha)
+	PlanBatchSize = B
+	base := "select " + s.fields + " where key >= ''"
+	pu, err := NewOptimizer(base).BuildPlan(st.clone())
+	vAssert(err == nil, "harness/C07-unordered-rejected")
+	un := vDrainNext(pu, n+1)
+	vAssert(un.err == nil, "harness/C07-unordered-error")
+	q := base + " order by " + order
+	pn, err := NewOptimizer(q).BuildPlan(st.clone())
+	vAssert(err == nil, "C07/ordered-statement-rejected")
+	rn := vDrainNext(pn, n+1)
+	vAssert(rn.err == nil, "C07/row-mode-error")
+	vAssert(vIsSortedPermutation(rn.rows, un.rows, keys), "C07/row-mode-not-a-sorted-permutation")
+	pb, err := NewOptimizer(q).BuildPlan(st.clone())
+	vAssert(err == nil, "C07/ordered-statement-rejected")
+	rb := vDrainBatch(pb, n+1)
+	vAssert(rb.err == nil, "C07/batch-mode-error")
+	vAssert(vIsSortedPermutation(rb.rows, un.rows, keys), "C07/batch-mode-not-a-sorted-permutation")
+	vCover("ordered")
+}
